@@ -253,7 +253,7 @@ func replay(cfg config, hist []string, wantTrace bool) outcome {
 						continue // rolling back what is being dropped is part of dropping it
 					}
 					if noBackend {
-						return mk("backend_call_after_reload_in_tx", "%s on %s although the namespace changed inside a transaction", e.Op, e.Pool)
+						return mk("backend_call_after_reload_in_tx", "a backend call (%s) was made although the namespace changed while the client is inside a transaction", e.Op)
 					}
 					if dropAll && wasOld {
 						return mk("dropped_pin_used", "%s ran on a pinned connection that this command has to drop (%s)", e.Op, e.Pool)
@@ -380,7 +380,8 @@ func replay(cfg config, hist []string, wantTrace bool) outcome {
 // or second after a reload - only used to label violations) is included because later
 // verdicts depend on it. Pool idle queues: the fake hands out idle or new connections which
 // behave alike (no faults other than the ping faults, which hit pinned connections), so only
-// their count is kept.
+// their count is kept, and only for the pools of the namespace generation in use (older
+// pools are unreachable).
 func canon(w *sessrig.World, a *sessrig.Sess, m *monitor, sinceReload int) string {
 	st := a.State()
 	var sb strings.Builder
@@ -388,10 +389,12 @@ func canon(w *sessrig.World, a *sessrig.Sess, m *monitor, sinceReload int) strin
 	if sr > 1 {
 		sr = 1
 	}
-	fmt.Fprintf(&sb, "ended=%v ac=%v it=%v|mon ac=%v ex=%v after=%s reload=%v since=%d|idx old=%d now=%d|", a.Ended, st.AutoCommit, st.InTrans, m.ac, m.explicit, m.after, m.reloadSeen, sr,
-		int(st.NsIndexNow)-int(st.NsIndexOld), int(st.NsIndexNow)-int(st.NsIndexCtx))
+	fmt.Fprintf(&sb, "ended=%v ac=%v it=%v|mon ac=%v ex=%v after=%s reload=%v since=%d|idx old=%v now=%v|", a.Ended, st.AutoCommit, st.InTrans, m.ac, m.explicit, m.after, m.reloadSeen, sr,
+		st.NsIndexNow > st.NsIndexOld, st.NsIndexNow > st.NsIndexCtx)
+	// only "current or stale" matters for a connection's pool generation and for the change
+	// index (the code compares with >), not by how many reloads it is behind
 	desc := func(ci sessrig.ConnInfo) string {
-		return fmt.Sprintf("%s/%s gen-%d cl=%v ac=%v tx=%v out=%v", ci.Slice, ci.Role, m.gen-ci.Gen, ci.Closed, ci.AutoCom, ci.InTx, ci.Out)
+		return fmt.Sprintf("%s/%s stale=%v cl=%v ac=%v tx=%v out=%v", ci.Slice, ci.Role, ci.Gen < m.gen, ci.Closed, ci.AutoCom, ci.InTx, ci.Out)
 	}
 	referenced := map[int]bool{}
 	sb.WriteString("ks:")
@@ -418,8 +421,9 @@ func canon(w *sessrig.World, a *sessrig.Sess, m *monitor, sinceReload int) strin
 	fmt.Fprintf(&sb, "|out:%v|idle:", others)
 	idle := map[string]int{}
 	for _, ci := range w.Conns() {
-		if !ci.Out && !ci.Closed {
-			idle[fmt.Sprintf("%s/%s gen-%d", ci.Slice, ci.Role, m.gen-ci.Gen)]++
+		// pools of earlier generations are unreachable once their namespace was replaced
+		if !ci.Out && !ci.Closed && ci.Gen == m.gen {
+			idle[fmt.Sprintf("%s/%s", ci.Slice, ci.Role)]++
 		}
 	}
 	for _, k := range sessrig.SortedKeys(idle) {
@@ -446,7 +450,7 @@ func main() {
 		r.Sample(c)
 		r.Finish()
 	}
-	depth := r.Pick(6, 9)
+	depth := r.Pick(10, 12)
 	cfgs := []config{{User: sessrig.UserRW}, {User: sessrig.UserRO}}
 	if r.Thorough() {
 		cfgs = append(cfgs, config{User: sessrig.UserRWS})
@@ -456,6 +460,7 @@ func main() {
 	facts := map[string]int{}
 	classes := map[string]int{}
 	classEx := map[string]string{}
+	var flaky []string
 	var mu sync.Mutex
 	maxDepth := 0
 	for _, cfg := range cfgs {
@@ -490,7 +495,11 @@ func main() {
 				for i := 0; i < 4; i++ {
 					again := replay(cfg, h, false)
 					if again.res.Violation != res.Violation {
-						ev.Fatalf("nondeterministic verdict for %v %v: %q vs %q", cfg, h, res.Violation, again.res.Violation)
+						// never report a verdict that does not reproduce
+						mu.Lock()
+						flaky = append(flaky, cfg.String()+" "+strings.Join(h, ",")+": "+res.Violation+" vs "+again.res.Violation)
+						mu.Unlock()
+						return
 					}
 				}
 				sig := fmt.Sprintf("kind=%s when=%s phase=%s after=%s ping_failed=%s", res.Features["kind"], res.Features["when"], res.Features["phase"], res.Features["after"], res.Features["ping_failed"])
@@ -543,8 +552,12 @@ func main() {
 	r.Set("rule", "BFS over histories of <=depth events (statements on slice 0 / 1 / both, BEGIN/COMMIT/ROLLBACK, SET autocommit, COM_PING ok / failing on slice 0 / 1, namespace reload between commands, disconnect, COM_QUIT) for a keep-session client (read-write user, read-only user; thorough: also the rw-split user); every history replayed on fresh real objects; distinct_nontrivial = distinct canonical states")
 	r.Assume("the reload is performed by the real Manager.ReloadNamespacePrepare plus the index switch of ReloadNamespaceCommit, while the client is idle between two commands (a reload racing with a running command is not explored)")
 	r.Assume("fake backend as in C18/C19; the only injected fault is a failing backend ping")
+	r.Set("irreproducible_verdicts", len(flaky))
+	if len(flaky) > 0 && r.Violations() == 0 {
+		ev.Fatalf("%d histories gave a verdict that did not reproduce in 5 runs, e.g. %s", len(flaky), flaky[0])
+	}
 	for _, f := range []string{"reload_in_tx_disconnects", "reload_outside_tx_drops_pins", "two_pins_reused"} {
-		if facts[f] == 0 && !r.TimeUp() {
+		if facts[f] == 0 && !r.TimeUp() && r.Violations() == 0 {
 			ev.Fatalf("vacuous run: fact %q never observed", f)
 		}
 	}
